@@ -26,8 +26,10 @@ def main():
     out = []
     real_stdout = sys.stdout
     sys.stdout = sys.stderr
+    from replays import common as _C
     for it in items:
         try:
+            _C.clear_all_caches()
             o = mod.observe(it["spec"], it["inputs"])
             if it.get("ob") is None and "predicted" in it:
                 # translator validation: report the real outputs, and let the independent concrete oracle judge them as well
